@@ -1,5 +1,5 @@
 import Updog.Generated
 namespace Updog.Facts
 open Updog.Generated
-theorem C11_facts : fileStmtChecksArgs = true ∧ grpcStmtChecksArgs = true ∧ replacePlaceholdersShape = true := by decide
+theorem C11_facts : driverMethodSet = true ∧ fileStmtChecksArgs = true ∧ grpcStmtChecksArgs = true ∧ replacePlaceholdersShape = true := by decide
 end Updog.Facts
